@@ -30,6 +30,7 @@ def generate(rng, tier):
     for _ in range(gen.N(tier, 170, 4000)):
         S = rng.choice(["Q", "F"])
         oob = False
+        rej = False
         L1, LN = gen.LAYS_1D, gen.LAYS_ND
         kind = rng.choice(["lin", "spl", "bil"])
         qrank = rng.choice([0, 1, 1, 2, 3])
@@ -77,6 +78,11 @@ def generate(rng, tier):
                 bc, _ = c02.rand_bc(rng, S, Ln, trailing)
                 if bc == "per":
                     flat[(n - 1) * Ln:] = flat[:Ln]
+                    if Ln >= 1 and rng.random() < 0.4:
+                        # first and last row differ in one lane: rejected, in whatever layout the data is stored
+                        jj = rng.randrange(Ln)
+                        flat[(n - 1) * Ln + jj] = flat[jj] + (1 if S == "Q" else 0.5)
+                        rej = True
                 strat = ("spl", False, bc)
             else:
                 strat = ("lin", False)
@@ -95,7 +101,7 @@ def generate(rng, tier):
             else:
                 e = e_into(S, qs[0], trailing, rng.choice(LN))
             line = i1_line(S, xs, shape, flat, strat, e, dtag=dtag, xlay=rng.choice(L1), dlay=rng.choice(LN))
-        cases.append({"line": line, "meta": {"oob": oob}})
+        cases.append({"line": line, "meta": {"oob": oob, "rej": rej}})
     # failing calls on scalar-lane data with rank-2 queries in non-C layouts: the element at (0,1) and the one at (1,0) are both
     # rejected, with different values; row-major order reaches (0,1) first, column-major order would reach (1,0) first
     for _ in range(gen.N(tier, 16, 300)):
@@ -136,6 +142,8 @@ def nontrivial(case, res):
 
 
 def oracle(case, res):
+    if case["meta"].get("rej"):
+        return None if res.raw.startswith("berr ValueError") else f"data whose first and last rows differ must be rejected for the Periodic boundary whatever the layout, got {res.raw[:80]}"
     if case["meta"].get("oob"):
         return None if res.kind == "oob" else f"a batch with rejected elements must return OutOfBounds whatever the layout, got {res.raw[:80]}"
     if res.kind != "ok":
